@@ -58,8 +58,7 @@ theorem not_held_of_unregistered {tr : Trace} {endT : Int} (hwf : WFP tr endT)
         ⟨g, hg, hgh, hgi, hg1, _⟩ | ⟨o3, ho3, ho3t⟩
       · exact ⟨g, hg, hgh, by rw [hgi]; exact h3b, by omega⟩
       · exfalso
-        have := k7b_unique h7 ho2 ho3
-        rw [this] at ho2t
+        have := (k7b_same h7 ho2 ho3).2
         omega
 
 /-! ### registered ⇒ held -/
@@ -199,8 +198,7 @@ theorem pos_after_announce {tr : Trace} {endT : Int} (hwf : WFP tr endT)
           ⟨g, hg, hgh, hgi, hg1, _⟩ | ⟨o3, ho3, ho3t⟩
         · exact ⟨g, hg, hgh, by rw [hgi]; exact posFull_pos h3p, by omega⟩
         · exfalso
-          have := k7b_unique h7 ho2 ho3
-          rw [this] at ho2t
+          have := (k7b_same h7 ho2 ho3).2
           omega
     | false =>
       have late : ∀ t, upAt tr b.host t = true → β + 225 ≤ t := fun t ht => upAt_of_not_upBefore hup ht
@@ -225,8 +223,7 @@ theorem pos_after_announce {tr : Trace} {endT : Int} (hwf : WFP tr endT)
           (hty ▸ hq3i) hq3k (by omega) (by omega) (by omega) (by omega)
         obtain ⟨m4, hm4, hm4a, hm4b⟩ := query_chain h4 hA hopen (X := tb) (fun e he heh _ => hno e he heh) hupb hq4 hq4d
           (hty ▸ hq4i) hq4k (by omega) (by omega) (by omega) (by omega)
-        have := k7b_unique h7 hm3 hm4
-        rw [this] at hm3b
+        have := (k7b_same h7 hm3 hm4).2
         omega
 
 theorem held_of_announced {tr : Trace} {endT : Int} (hwf : WFP tr endT)
@@ -324,8 +321,7 @@ theorem unexpired_of_refresh {tr : Trace} {endT : Int} (hwf : WFP tr endT)
         (by omega) (by omega) (by omega) (by omega)
       obtain ⟨m2, hm2, hm2a, hm2b⟩ := query_chain h4 hA hopen hnoPos hupx hq2 hq2d (hty ▸ hq2i) hq2k
         (by omega) (by omega) (by omega) (by omega)
-      have := k7b_unique h7 hm1 hm2
-      rw [this] at hm1b
+      have := (k7b_same h7 hm1 hm2).2
       omega
     · -- the browser started when x was already older: its third and fourth start-up questions
       have w1 := refreshWindow_late hcase false
@@ -343,8 +339,7 @@ theorem unexpired_of_refresh {tr : Trace} {endT : Int} (hwf : WFP tr endT)
         (by omega) (by omega) (by omega) (by omega)
       obtain ⟨m2, hm2, hm2a, hm2b⟩ := query_chain h4 hA hopen hnoPos hupb hq2 hq2d (hty ▸ hq2i) hq2k
         (by omega) (by omega) (by omega) (by omega)
-      have := k7b_unique h7 hm1 hm2
-      rw [this] at hm1b
+      have := (k7b_same h7 hm1 hm2).2
       omega
 
 end Zc.Link
